@@ -205,7 +205,8 @@ def mlir_global(case):
     gst = row_major_strides(g)
     off = sum(a * b for a, b in zip(offs, gst))
     tile_ty = memref_ty(dict(o0, layout=["strided", gst, off]))
-    gty = f"memref<{'x'.join(map(str, g))}x{o0['el']}, \"L1\">"
+    glay = f", strided<[{', '.join(map(str, gst))}]>" if case.get("glayout") else ""     # the global already has a layout
+    gty = f"memref<{'x'.join(map(str, g))}x{o0['el']}{glay}, \"L1\">"
     text, tys = op_text(dict(case, operands=[dict(o0, layout=["strided", gst, off])] + case["operands"][1:]), 0)
     args = ", ".join(f"%a0_{i} : {t}" for i, t in enumerate(tys) if i > 0)
     second = f'  "test.use"(%g) : ({gty}) -> ()\n' if case.get("uses", 1) > 1 else ""
@@ -522,7 +523,8 @@ def gen_global(rng, divides=None):
         j = max(range(len(gshape)), key=lambda j: gshape[j] // tile[j])
         gshape[j] = max(tile[j], gshape[j] // 2 // tile[j] * tile[j])
         offs[j] = 0
-    c = dict(c, kind="global", gshape=gshape, offs=offs, uses=2 if rng.random() < 0.1 else 1)
+    c = dict(c, kind="global", gshape=gshape, offs=offs, uses=2 if rng.random() < 0.1 else 1,
+             glayout=rng.random() < 0.08)
     c["operands"] = [dict(o, layout=None) for o in c["operands"]]
     return c
 
@@ -858,7 +860,8 @@ class C09(Prop):
         if k == "global":
             if "raised" in r:
                 return {"raised": r["raised"]}
-            fires = case.get("uses", 1) == 1      # IR-level guard of the pattern (single user), not modelled in Lean
+            # IR-level guards of the pattern (single user, layout of the global unset), not modelled in Lean
+            fires = case.get("uses", 1) == 1 and not case.get("glayout")
             glob = r["global"] if fires else None
             return {"global": glob, "tile": r["layouts"][0] if glob is not None else None, "consistent": True,
                     "n_globals": 1}
